@@ -23,7 +23,7 @@ RuleTexts == {R_noc, R_all, R_bad}
 
 MCInit ==
   /\ cfg = [maxNames |-> LimNames, maxMatch |-> LimMatch, maxReplies |-> LimReplies, maxCompleted |-> LimCompleted,
-            maxPerUser |-> LimPerUser, busUid |-> 0, policy |-> AllowAllPolicy]
+            maxPerUser |-> LimPerUser, busUid |-> 0, policy |-> AllowAllPolicy, epoch |-> 0]
   /\ Init0
 
 NextUnique == UniqueOf(Cardinality(everNames) + 1)
@@ -101,7 +101,7 @@ BroadcastOnlyToMatching ==
 SlotOnlyForDeliveredCall ==
   [][Len(pend') > Len(pend) =>
         \E i \in ClientMsgs(out') : out'[i].m.ty = 1 /\ (out'[i].m.fl % 2) = 0
-                                     /\ pend'[Len(pend')] = [caller |-> out'[i].m.org, callee |-> out'[i].to, ser |-> out'[i].m.ser]]_vars
+                                     /\ pend'[Len(pend')] = [caller |-> out'[i].m.org, callee |-> out'[i].to, ser |-> out'[i].m.ser, born |-> 0, orph |-> 0]]_vars
 \* NoReply is produced only by expiry, exactly for the expired slot (C09)
 NoReplyOnlyOnExpiry ==
   [][(\E j \in 1..Len(out') : out'[j].m.org = 0 /\ out'[j].m.err = E_NoReply) => Len(pend') = Len(pend) - 1]_vars
